@@ -78,8 +78,8 @@ def gen_cfg(r, rich=True, nboards=None, max_segs=6):
                 l, h = fresh_dcc(small_h=not r.chance(1, 4)); B["dpoints"].append((l, h, c.n["dp"])); c.n["dp"] += 1
             snums = []
             for _ in range(r.choice([0, 0, 1, 2])):
-                n = r.choice(nums + [0, 1, 3, 0x10, r.below(256)]) if nums else r.choice([0, 1, 3, 0x10, r.below(256)])   # may collide with a point's number
-                if n not in snums: snums.append(n); B["signals"].append((n, c.n["s"], aspects())); c.n["s"] += 1
+                n = r.choice([0, 1, 3, 0x10, r.below(256)])   # never a point's number: the parser rejects that since fix 31797cd (C13)
+                if n not in snums and n not in nums: snums.append(n); B["signals"].append((n, c.n["s"], aspects())); c.n["s"] += 1
             for _ in range(r.choice([0, 1])):
                 l, h = fresh_dcc(small_h=not r.chance(1, 4)); B["dsignals"].append((l, h, c.n["ds"])); c.n["ds"] += 1
             ports = []
